@@ -4,7 +4,7 @@ import ast
 
 from .. import AnalysisError
 from ..flow import show, walk_term
-from ..report import ob_ok, ob_fail
+from ..report import ob_ok, ob_fail, ob_undecided
 from .common import (is_call, method_call, node_attr, edge_attr, elem_of, strip_wrappers, guards_of,
                      enclosing_loops, need, contains, aug_like)
 
@@ -171,6 +171,41 @@ def prov_annotate_lookup(repo, tier="quick"):
         (obs.append(ob_ok(oid, fi, call, construct="**molecule.nodes[n]", instance="attributes", reason="fine node attributes are carried over")) if ok2 else
          obs.append(ob_fail(oid, fi, call, construct="attributes %s" % (show(splat) if splat else "<none>"), instance="attributes",
                             reason="the per-coarse-node graph's nodes do not carry the fine node's attributes")))
+    # bonds: the per-node graph gets an edge for exactly those pairs of its own nodes that are bonded in the fine graph
+    recvs = {a[3][0] for a in adds}
+    edge_sites = []
+    for call, nid in fl.calls():
+        ct = fl.canon(call, nid)
+        m = method_call(ct, "add_edge")
+        if m and m[0] in recvs and len(m[2]) >= 2:
+            edge_sites.append((call, nid, m))
+    if not edge_sites:
+        obs.append(ob_fail(oid, fi, construct="no add_edge on the per-node graph", instance="bonds",
+                           reason="the graph stored on a coarse node has the fragment's atoms but none of its bonds"))
+    for call, nid, m in edge_sites:
+        a, b = m[2][0], m[2][1]
+        pair_ok = False
+        if a[0] == "sub" and b[0] == "sub" and a[1] == b[1] and {a[2], b[2]} == {("const", 0), ("const", 1)} and a[1][0] == "iter":
+            comb = is_call(a[1][2], "itertools.combinations")
+            if comb and comb[0] and comb[0][0][0] == "sub" and comb[0][0][1] == index:
+                mk = elem_of(comb[0][0][2])
+                r = comb[0][1] if len(comb[0]) > 1 else dict(a[1][2][4]).get("r")
+                pair_ok = bool(mk and strip_wrappers(mk[1]) in (("attr", meta, "nodes"), meta)) and r == ("const", 2)
+        guard_ok = False
+        for test, pol, gid in guards_of(fi, nid):
+            t = fl.canon(test, gid)
+            hm = method_call(t, "has_edge")
+            if hm and hm[0] == mol and len(hm[2]) == 2 and set(hm[2]) == {a, b}:
+                guard_ok = pol
+        if pair_ok and guard_ok:
+            obs.append(ob_ok(oid, fi, call, construct="graph_frag.add_edge(a, b) iff molecule.has_edge(a, b), for all pairs of index[meta_node]", instance="bonds",
+                             reason="the per-node graph is the subgraph of the fine graph induced by the node's atoms"))
+        elif not pair_ok:
+            obs.append(ob_undecided(oid, fi, call, construct="add_edge(%s, %s)" % (show(a)[:60], show(b)[:60]), instance="bonds",
+                                    reason="the pairs are not drawn with itertools.combinations(index[meta_node], r=2); the rule cannot decide whether all and only the fragment's bonds are added"))
+        else:
+            obs.append(ob_fail(oid, fi, call, construct="add_edge(a, b) not under a positive molecule.has_edge(a, b)", instance="bonds",
+                               reason="the per-node graph gets edges between atoms that are not bonded in the fine graph (or misses the bonded ones)"))
     # the graph is stored on the coarse node it was built for
     stored = False
     for n in cfg.nodes:
@@ -358,6 +393,11 @@ def norm_bead(repo, tier="quick"):
             if v[0] == "binop" and v[1] == "*":
                 for p, w in ((v[2], v[3]), (v[3], v[2])):
                     na = node_attr(p)
+                    if na is None and p[0] == "sub":
+                        # nx.get_node_attributes(aa, 'position')[n] is aa.nodes[n]['position']
+                        cga = is_call(strip_wrappers(p[1]), "networkx.get_node_attributes")
+                        if cga and len(cga[0]) >= 2:
+                            na = (cga[0][0], p[2], cga[0][1], None)
                     ew = elem_of(w)
                     if na and na[0] == aa and na[2] == ("const", "position") and ew and ew[0] == "value":
                         ek = elem_of(na[1])
@@ -378,7 +418,7 @@ def norm_bead(repo, tier="quick"):
                       reason="the weighted sum ranges over exactly this bead's own atoms")) if own else
      obs.append(ob_fail(oid, fi, n.ast, construct="weights = %s" % show(W), instance="members",
                         reason="the weights are not the 'weight' attributes of this bead's own per-node graph")))
-    # divisor
+    # divisor: `var = var / X`, `var /= X`, or the division written inside the store `cg.nodes[bead]['position'] = var / X`
     div = None
     for m in cfg.nodes:
         st = m.ast
@@ -411,6 +451,22 @@ def norm_bead(repo, tier="quick"):
             ev = elem_of(x[3])
             if ev and ev[0] == "value" and strip_wrappers(ev[1]) == W:
                 ok = True
+    memo_bad = None
+    if d[0] == "sub" and not ok:
+        # a memo table D[key] = sum(weights.values()): sound only when the key identifies the bead
+        D, key = d[1], d[2]
+        for q in cfg.nodes:
+            if q.kind == "stmt" and isinstance(q.ast, ast.Assign) and isinstance(q.ast.targets[0], ast.Subscript):
+                tt = fl.canon(q.ast.targets[0], q.id)
+                if tt[0] == "sub" and tt[1] == D:
+                    vq = fl.canon(q.ast.value, q.id)
+                    sq = is_call(vq, "sum", "numpy.sum", "math.fsum")
+                    mvq = method_call(strip_wrappers(sq[0][0]), "values") if sq and sq[0] else None
+                    if mvq and strip_wrappers(mvq[0]) == W and own:
+                        if tt[2] == own[0] and key == own[0]:
+                            ok = True
+                        else:
+                            memo_bad = show(key)
     if d[0] == "var":
         # accumulated total of the same weights
         for dd in fl.reaching(d[1], m.id):
@@ -422,7 +478,9 @@ def norm_bead(repo, tier="quick"):
     (obs.append(ob_ok(oid, fi, m.ast, construct="weighted sum / sum(weights)", instance="divisor",
                       reason="weight-normalised average: translating the atoms translates the bead by the same vector")) if ok else
      obs.append(ob_fail(oid, fi, m.ast, construct="weighted sum / %s" % show(d), instance="divisor",
-                        reason="the weighted sum is not divided by the sum of the same weights (the bead is not translation-equivariant unless all weights are 1)")))
+                        reason=("the sum of weights is remembered under %s, which does not identify the bead: another bead with the same key but other "
+                                "weights is normalised with the wrong total" % memo_bad) if memo_bad else
+                        "the weighted sum is not divided by the sum of the same weights (the bead is not translation-equivariant unless all weights are 1)")))
     # stored on the bead
     stored = False
     for q in cfg.nodes:
@@ -430,7 +488,7 @@ def norm_bead(repo, tier="quick"):
             tt = fl.canon(q.ast.targets[0], q.id)
             na = node_attr(tt)
             if na and na[0] == cg and na[2] == ("const", "position") and own and na[1] == own[0] and \
-                    isinstance(q.ast.value, ast.Name) and q.ast.value.id == var and cfg.path_exists(m.id, q.id):
+                    ((isinstance(q.ast.value, ast.Name) and q.ast.value.id == var and cfg.path_exists(m.id, q.id)) or q.id == m.id):
                 stored = True
     (obs.append(ob_ok(oid, fi, construct="cg.nodes[bead]['position'] = normalised sum", instance="store", reason="stored on the bead it was computed for")) if stored else
      obs.append(ob_fail(oid, fi, construct="store of the bead position", instance="store", reason="the normalised average is not stored as 'position' of the bead it was computed for")))
@@ -571,4 +629,119 @@ def norm_scale(repo, tier="quick"):
     (obs.append(ob_ok("ORD.scale-last", fi, rets[0].ast if rets else None, construct="return pos", instance="return", reason="the rescaled positions are returned")) if ok_ret else
      obs.append(ob_fail("ORD.scale-last", fi, rets[0].ast if rets else None, construct="return", instance="return", reason="the function does not return the rescaled position dict")))
     # between the mean and the scaling no write to positions
+    return obs
+
+
+def _layout_space(t, graph, depth=0):
+    """Index space of a canonical term inside the layout code: 'node' (a node key of the graph),
+    'index' (a position in an enumeration: enumerate counter, range element, integer literal) or None."""
+    if depth > 12 or not isinstance(t, tuple) or not t:
+        return None
+    if t[0] == "const":
+        return "index" if isinstance(t[1], int) and not isinstance(t[1], bool) else None
+    if t[0] == "attr" and t[2] in ("edges", "nodes") and t[1] == graph:
+        return "node"
+    if t == graph:
+        return "node"
+    if t[0] == "call":
+        c = is_call(t, "numpy.array", "numpy.asarray", "list", "tuple", "sorted", "reversed", "iter")
+        if c and c[0]:
+            return _layout_space(c[0][0], graph, depth + 1)
+        m = method_call(t, "nodes") or method_call(t, "edges") or method_call(t, "keys")
+        if m:
+            return _layout_space(m[0], graph, depth + 1) if m[1] == "keys" else ("node" if m[0] == graph else None)
+        if is_call(t, "range"):
+            return "index"
+        # a node-keyed dict (layout result) iterates over node keys
+        f = t[2]
+        if f[0] == "ext" and f[1].startswith("networkx.") and f[1].endswith("_layout"):
+            return "node"
+        if f[0] == "fn" and f[1].endswith(":check_and_fix_cis_trans"):
+            return "node"
+        return None
+    if t[0] == "iter":
+        coll = t[2]
+        if is_call(coll, "enumerate"):
+            return None     # a (counter, element) pair: only its components have a space
+        return _layout_space(coll, graph, depth + 1)
+    if t[0] == "sub":
+        base, k = t[1], t[2]
+        if base[0] == "iter" and is_call(base[2], "enumerate") and k[0] == "const":
+            c = is_call(base[2], "enumerate")
+            if k[1] == 0:
+                return "index"
+            if k[1] == 1 and c[0]:
+                return _layout_space(c[0][0], graph, depth + 1)
+        # a component / column / slice of something made of node keys is made of node keys
+        inner = _layout_space(base, graph, depth + 1)
+        if inner == "node" and (k[0] in ("const", "slice", "tuple")):
+            return "node"
+        return None
+    if t[0] == "binop":
+        sp = {_layout_space(x, graph, depth + 1) for x in t[2:4]}
+        return "index" if sp == {"index"} else None
+    return None
+
+
+def _positional_array(t, depth=0, fl=None):
+    """numpy.array(list(D.values())) and what the rotation helper / arithmetic make of it: rows in enumeration order"""
+    if depth > 8 or not isinstance(t, tuple) or not t:
+        return False
+    if t[0] == "var" and fl is not None and t[2]:
+        # several reaching definitions: positional when every one of them is
+        vals = []
+        for i in t[2]:
+            d = fl.defs[i]
+            if d.kind not in ("assign", "aug") or d.path or d.value is None:
+                return False
+            vals.append(fl.canon(d.value, d.node))
+        return bool(vals) and all(_positional_array(v, depth + 1, fl) for v in vals)
+    c = is_call(t, "numpy.array", "numpy.asarray", "list", "tuple")
+    if c and c[0]:
+        inner = c[0][0]
+        m = method_call(inner, "values")
+        if m:
+            return True
+        return _positional_array(inner, depth + 1, fl)
+    if t[0] == "call" and t[2][0] == "fn" and t[2][1].endswith(":rotate_to_axis") and t[3]:
+        return _positional_array(t[3][0], depth + 1, fl)
+    if t[0] == "binop":
+        return any(_positional_array(x, depth + 1, fl) for x in t[2:4])
+    return False
+
+
+def key_layout(repo, tier="quick"):
+    """C19 (independence from the node labels, one position per node): inside vespr_layout a position *array*
+    (rows in enumeration order of the position dict) is subscripted by enumeration counters only, and the node-keyed
+    position *dict* by node keys only.  Node keys are arbitrary hashables; using them as row numbers works only for
+    graphs labelled 0..n-1 in order."""
+    fi = repo.function("graph_layout:vespr_layout")
+    fl = fi.flow
+    graph = ("param", fi.positional_params[0])
+    oid = "KEY.K3-layout"
+    obs = []
+    for sub in ast.walk(fi.node):
+        if not (isinstance(sub, ast.Subscript) and id(sub) in fi.cfg.owner):
+            continue
+        nid = fi.cfg.owner[id(sub)]
+        base = fl.canon(sub.value, nid)
+        k = fl.canon(sub.slice, nid)
+        if _positional_array(base, fl=fl):
+            sp = _layout_space(k, graph)
+            if sp == "node":
+                obs.append(ob_fail(oid, fi, sub, construct="%s  (rows in enumeration order, subscript made of node keys)" % ast.unparse(sub), instance="array-by-node-key",
+                                   reason="a position array is indexed with node keys of the graph; node keys are arbitrary labels, not row numbers: "
+                                          "relabelling the graph changes or breaks the layout"))
+            else:
+                obs.append(ob_ok(oid, fi, sub, construct="%s" % ast.unparse(sub), instance="array-by-" + (sp or "other"),
+                                 reason="the position array is not indexed with node keys"))
+        elif base[0] == "call" and ((base[2][0] == "ext" and base[2][1].startswith("networkx.") and base[2][1].endswith("_layout")) or
+                                    (base[2][0] == "fn" and base[2][1].endswith(":check_and_fix_cis_trans"))):
+            sp = _layout_space(k, graph)
+            if sp == "index":
+                obs.append(ob_fail(oid, fi, sub, construct="%s  (node-keyed positions, subscript is a counter)" % ast.unparse(sub), instance="dict-by-counter",
+                                   reason="the node-keyed position dict is indexed with an enumeration counter instead of a node key"))
+            else:
+                obs.append(ob_ok(oid, fi, sub, construct="%s" % ast.unparse(sub), instance="dict-by-" + (sp or "other"),
+                                 reason="the node-keyed position dict is indexed with %s" % ("a node key" if sp == "node" else "a value that is not a counter")))
     return obs
